@@ -44,6 +44,7 @@ EXPLANATION = (
     "test of that same X, and C11's R11.4 (each permission rule computes its predicate for every input, including 'not found') "
     "applied here. "
     "R1.14/R1.15 = C02's R2.2/R2.3 (an observation that leaves its declared space, or a state-keyed look-up without default, raises inside step) applied here. "
+    "R1.14/R1.15 = C02's R2.2/R2.3 (an observation that leaves its declared space, or a state-keyed look-up without default, raises inside step) applied here. "
     "NOT decided: that no input whatsoever makes a library call raise (KeyError/IndexError/validation errors on "
     "run-time values) and finiteness of rewards as numbers."
 )
